@@ -48,8 +48,8 @@ RouteOK(k) == LET rt == Route(k) IN
           /\ (d[1] = 0) # (d[2] = 0)                          \* exactly horizontal or vertical
           /\ SegFree(k, rt[i], d, SegLen(rt[i], rt[i + 1]))
     /\ \A i \in 2..(Len(rt) - 1) : SegDir(rt[i - 1], rt[i]) # Neg(SegDir(rt[i], rt[i + 1]))    \* no reversal in place
-    /\ LeaveOK(k, SegDir(rt[1], rt[2]))
-    /\ ArriveOK(k, SegDir(rt[Len(rt) - 1], rt[Len(rt)]))
+    \* (whether a free-floating endpoint's direction mask is honoured is not part of C05's statement: the
+    \*  masks only restrict the paths the oracle may use, so a hit is cheaper under every reading)
 RECURSIVE SumLen(_, _)
 SumLen(rt, i) == IF i >= Len(rt) THEN 0 ELSE SegLen(rt[i], rt[i + 1]) + SumLen(rt, i + 1)
 BendCount(rt) == Cardinality({i \in 2..(Len(rt) - 1) : SegDir(rt[i - 1], rt[i]) # SegDir(rt[i], rt[i + 1])})
